@@ -1067,3 +1067,10 @@ for _vt, _nm in enumerate(("null", "false", "empty_string", "empty_array", "empt
     O(id="C04.value_travels_" + _nm, props=["C04", "C01", "C03"], entry="harness_value_types_travel", defines=["VTYPE=%d" % _vt],
       functions=["change_state", "notify_fetchers", "set_or_call", "create_routed_message"],
       symbolic="(concrete value of the given type)", assumes=["set-up succeeds"], bounds="O owns state 's', B subscribed; O changes 's' to %s; A sets 's' to %s" % (_nm, _nm), **_scn_guard)
+_note_add("C01", "history_*: six short histories with two elements, three fetches or two owners (remove of one of two elements, owner of two elements leaves, a path re-added after remove / after its owner left, unfetch of one of three fetches, two owners): every subscriber's replica, replayed from the events it received, equals the daemon's element set at the end, and no event is spurious or duplicated. table_growth_*: four subscriptions on one element (the element's subscription table doubles). rule_fetch_first_*: the rule is applied to elements added after the fetch.",
+          "more than 4 peers / 2 elements / 4 subscriptions per skeleton; both transports (the transport is a recording stub); histories other than the listed skeletons (each step re-establishes the subscription invariant; the induction over arbitrary histories is prose); table growth beyond one doubling (2 -> 4 slots).")
+_note_add("C03", "*_call: the same scenarios with a method and call (arguments relayed as the routed message's params). reply_{result,error}_<type>: payloads of five JSON types are relayed unchanged and never answered. *_colliding_ids: every routed id of the owner's table in one bucket. owner_leaves_two_callers: every in-flight request of every caller ends in exactly one error. reply_to_request_without_id_*: requests without id are routed, their answer / expiry is consumed silently and releases record and timer.",
+          "routing table order 2 only; one owner per scenario; real timers (timer model: created/armed/fired/destroyed) except in C14.batch_*; ids as text (snprintf stand-in for the two formats).")
+_note_add("C02", "batch_* shapes: notification + request + failing request, single member, failing request first. no_answer_*: notifications, stray responses and odd objects. C06.shape_*: hostile shapes are answered with at most one error carrying the id.")
+_note_add("C11", "accept_errors: an attempt that failed for reasons of its own does not keep the connection queued behind it from being accepted (edge-triggered listener).")
+_note_add("C10", "writev3_step: the same step for a frame gathered from three chunks of different lengths.")
